@@ -101,8 +101,9 @@ def _val(x):
 
 
 def fn_f(*a, **k):
-    """numeric, order-sensitive in positional arguments, keyword-sensitive"""
-    return _val(a) + sum(len(kk) * 13 * _val(v) + 1 for kk, v in k.items())
+    """numeric, order-sensitive in positional arguments, sensitive to the keywords' names AND
+    to the order in which they are handed over (PEP 468: source order)"""
+    return _val(a) + sum((i + 1) * len(kk) * 13 * _val(v) + 1 for i, (kk, v) in enumerate(k.items()))
 
 
 class Ob:
@@ -143,7 +144,17 @@ def compare_values(pv, mv):
         return False
     if pv[0] == "exc":
         return pv[1] == mv[1]
-    return refsem.values_equal(pv[1], mv[1]) or pv[1] == mv[1]
+    a, b = pv[1], mv[1]
+    num = (int, float, complex)
+    if isinstance(a, num) and isinstance(b, num):
+        # the same tokens and the same operators give the same KIND of number: 9 is not 9.0,
+        # 3 ** 40.0 + 1 is a rounded float and not the exact integer
+        kind = lambda v: int if isinstance(v, int) else type(v)  # noqa: E731  (+True is 1: the
+        if kind(a) is not kind(b):                               # parser has no unary-plus node)
+            return False
+        if isinstance(a, int):
+            return a == b
+    return refsem.values_equal(a, b) or a == b
 
 
 def agree(tree, s, envs):
@@ -476,6 +487,17 @@ def workload(ctx):
                     "o[(), 1]", "o[1, ()]", "o[((), a)]", "f(a, k=((), b))", "f(k=())", "f((a,), b)",
                     "f(((a, b), c))", "f((a, (b, c)))", "f((a, b),)", "o[(a, b), c]", "o[a, (b,)]"]
         strings += LITERALS + POSTFIX
+        # float literals (integer-valued ones too) on either side of every operator, and where
+        # the kind of the result shows: exponents, int-only operators, huge powers
+        for o in BIN:
+            for lit in ("2.0", "1.0", "0.5", "-1.0", "1e1", "40.0"):
+                strings += [f"a {o} {lit}", f"{lit} {o} a", f"3 {o} {lit}"]
+        strings += ["3 ** 40.0 + 1", "(10 ** 9 + 7) ** 2.0", "a ** 2.0 & 1", "2 ** -1.0", "a ** 4.0 // 3",
+                    "7 ** 2.0 % 5", "b ** 1.0", "b ** 0.0", "2.0 ** a", "(a + 1) ** 2.0 - a ** 2",
+                    "f(a ** 2.0, k=b ** 1.0)", "o[2 ** 1.0]" if False else "f(2 ** 1.0)"]
+        # several keywords NOT in alphabetical order (the callee sees their order)
+        strings += ["f(a, zeta=b, alpha=c)", "f(k=a, j=b, b=c)", "f(a, b, width=c, height=d)",
+                    "f(z=a + 1, y=b * 2, x=c)", "g(f(b=1, a=2), zz=3, aa=f(y=a, x=b))"]
         # numeric literals of 18 .. 39 digits, alone and as operands
         for lit in BIG_LITERALS:
             strings += [lit, f"-{lit}", f"a + {lit}", f"{lit} * b - 1", f"{lit} // 7 % 1000",
